@@ -65,6 +65,62 @@ def gen(ctx):
     return True
 
 
+def gen_fields(ctx):
+    """regenerate coq/gen/C21_Fields.v (default-field rules); False + broken tie if untranslatable"""
+    try:
+        text = translate.gen_fields(ctx.repo)
+    except (translate.Untranslatable, SyntaxError, OSError) as ex:
+        ctx.tie_broken("translator", "needing.py NeedState/NeedIndirect._resolve default-field rule", repr(ex))
+        return False
+    ctx.write_gen("C21_Fields.v", text)
+    return True
+
+
+# ---------------------------------------------------------------------------------------
+# default-field rule: one real build per (state share, written state field, goal share, written goal field)
+FSHARES = [("fs.a", ["value"]), ("fs.m", ["x", "y"]), ("fs.e", [])]
+
+
+def field_rule_ref(fields, written, fallback):
+    """the documented rule (reference for search): written field, else 'value' if the share is empty or
+    has 'value', else `fallback` (None = ambiguous -> ResolveError)"""
+    if written:
+        return written
+    if not fields or "value" in fields:
+        return "value"
+    return fallback
+
+
+def run_field_case(ctx, S, sf, G, gf, tag):
+    """returns ('ok', stateField, goalField) | ('err', cls)"""
+    from ioflo.base import skedding
+    from ioflo.aid.odicting import odict
+    text = "house h\n\n  framer t0 be active first A\n    frame A\n      go B if %s.%s == %s.%s\n    frame B\n" % (
+        (sf + " in ") if sf else "", S[0], (gf + " in ") if gf else "", G[0])
+    path = os.path.join(ctx.work, "f%s.flo" % tag)
+    with open(path, "w") as f:
+        f.write(text)
+    pre = [(n, odict((k, 0) for k in fl)) for n, fl in FSHARES if fl]
+    sk = skedding.Skedder(name="v", period=1.0, real=False, filepath=path, preloads=pre)
+    try:
+        if not sk.build():
+            return ("err", "ResolveError")         # Builder reports Parse/Resolve errors as a failed build
+        framer = [t for t in sk.houses[0].taskables if t.name == "t0"][0]
+        a = observe_acts(framer)[0]
+    except Exception as ex:
+        return ("err", type(ex).__name__)
+    if a["kind"] != 2:
+        return ("err", "NotIndirect")
+    return ("ok", a["state"][1], a["goal"][1])
+
+
+def e_strs(names):
+    out = [len(names)]
+    for n in names:
+        out += [len(n)] + [ord(c) for c in n]
+    return out
+
+
 # ---------------------------------------------------------------------------------------
 # the property's statement, executable (reference used to schedule runs and by search only)
 def is_num(v):
@@ -367,7 +423,7 @@ def e_env(env, intern, framer):
 
 HEADER = """From Coq Require Import ZArith QArith List Bool.
 Import ListNotations.
-Require Import V.Lib.C45_PyVal V.gen.C21_Needing V.C21.Model.
+Require Import V.Lib.C45_PyVal V.gen.C21_Needing V.gen.C21_Fields V.C21.Model.
 """ + DECODE_COQ + """
 Definition rv_eqb (m i : res val) : bool :=
   match m, i with Ok a, Ok b => val_eqb a b | Err x, Err y => exc_eqb x y | _, _ => false end.
@@ -376,6 +432,28 @@ Definition prv : P (res val) := fun l =>
   | 0%Z :: r => pbind pexc (fun e => pret (Err e)) r
   | 1%Z :: r => pbind pval (fun v => pret (Ok v)) r
   | _ => None
+  end.
+(* 0. default-field rule: state fields, written state field, goal fields, written goal field, result *)
+Definition pstr : P (list Z) := fun l =>
+  match l with n :: r => Some (firstn (Z.to_nat n) r, skipn (Z.to_nat n) r) | [] => None end.
+Definition pfres : P (res (val * val)) := fun l =>
+  match l with
+  | 0%Z :: r => pbind pexc (fun e => pret (Err e)) r
+  | 1%Z :: r => pbind pval (fun a => pbind pval (fun b => pret (Ok (a, b)))) r
+  | _ => None
+  end.
+Definition fres_eqb (m i : res (val * val)) : bool :=
+  match m, i with
+  | Ok (a, b), Ok (c, d) => val_eqb a c && val_eqb b d
+  | Err x, Err y => exc_eqb x y
+  | _, _ => false
+  end.
+Definition chk_fields (l : list Z) : bool :=
+  match pbind (plist pstr) (fun sf => pbind pval (fun f => pbind (plist pstr) (fun gf => pbind pval (fun g =>
+        pbind pfres (fun o => pret (fres_eqb
+          (bind (state_default_field sf f) (fun f' => bind (goal_default_field gf g f') (fun g' => Ok (f', g')))) o)))))) l with
+  | Some (b, []) => b
+  | _ => false
   end.
 (* 1. Need.Check : state cmp goal tol result *)
 Definition chk_check (l : list Z) : bool :=
@@ -491,10 +569,33 @@ def run(ctx):
         "complex tolerances/goals (Convert2Num accepts '1j') are not modelled",
     ]
     ok = gen(ctx)
+    okf = gen_fields(ctx)
     if ok:
-        ctx.coq_build("C21/Props.v")
-    else:
+        ctx.coq_build(["C21/Props.v"] + (["C21/FieldProps.v"] if okf else []))
+    if not ok or not okf:
         ctx.obligations += 1
+
+    # 0. default-field rule of NeedState/NeedIndirect._resolve through real builds
+    c0, m0 = [], []
+    n = 0
+    for S in FSHARES:
+        for sf in (None, "value", "x", "zz"):
+            for G in FSHARES:
+                for gf in (None, "value", "y", "zz"):
+                    n += 1
+                    r = run_field_case(ctx, S, sf, G, gf, str(n % 8))
+                    sfields = list(S[1])
+                    # the state field is created before the goal is resolved: visible when both are the same share
+                    f_res = field_rule_ref(sfields, sf, None)
+                    gfields = list(G[1])
+                    if G[0] == S[0] and f_res and f_res not in gfields:
+                        gfields.append(f_res)
+                    enc = e_strs(sfields) + e_val(sf or "") + e_strs(gfields) + e_val(gf or "")
+                    enc += [1] + e_val(r[1]) + e_val(r[2]) if r[0] == "ok" else [0, e_exc(r[1])]
+                    c0.append(("(chk_fields %s)" % zlist(enc), "true"))
+                    m0.append((S, sf, G, gf, r))
+                    ctx.case({"fields": [S[0], sf, G[0], gf], "res": list(r)}, nontrivial=(sf is None or gf is None),
+                             kind="default-field rule")
 
     from ioflo.base import needing
     rng = ctx.rng
@@ -562,7 +663,12 @@ def run(ctx):
                     m2.append((text, acts))
                     ctx.case({"cond": text, "acts": [[a["neg"], a["kind"], list(a["state"])] for a in acts]},
                              nontrivial=nontriv, kind="build")
-    if ok:
+    if ok and okf:
+        bad = ctx.coq_cases(HEADER, "Bool.eqb", c0, name="fld")
+        ctx.extra["mismatches_fld"] = len(bad)
+        for i in bad[:4]:
+            ctx.tie_broken("correspondence", "generated default-field rule vs Builder resolve", repr(m0[i]))
+    if ok and okf:
         for cases, metas, name, label in ((c1, m1, "chk", "generated Need.Check vs implementation"),
                                           (c2, m2, "bld", "parse model vs acts built by Builder.makeNeed"),
                                           (c3, m3, "run", "C21 model vs Builder+Skedder run")):
@@ -573,9 +679,26 @@ def run(ctx):
     ctx.exhaustive = False
 
     def search():
-        return find_failing(m1, m3)
+        return find_failing_fields(m0) or find_failing(m1, m3)
 
     ctx.settle(search)
+
+
+def find_failing_fields(m0):
+    """the documented default-field rule against the real builder"""
+    for S, sf, G, gf, r in m0:
+        f = field_rule_ref(list(S[1]), sf, None)
+        if f is None:
+            exp = ("err", "ResolveError")
+        else:
+            gfields = list(G[1]) + ([f] if G[0] == S[0] and f not in G[1] else [])
+            exp = ("ok", f, field_rule_ref(gfields, gf, f))
+        if tuple(r) != exp:
+            return {"key": "indirect-goal-default-field" if r == ("err", "NameError") else "default-field-rule",
+                    "condition": "go B if %s.%s == %s.%s" % ((sf + " in ") if sf else "", S[0], (gf + " in ") if gf else "", G[0]),
+                    "share_fields": {n: fl for n, fl in FSHARES}, "observed": list(r), "expected": list(exp),
+                    "contradicts": "C21.FieldProps.goal_field_default_rule / state_field_default_rule"}
+    return None
 
 
 def find_failing(m1, m3):
